@@ -103,7 +103,7 @@ def run_case(case):
                             out[k, :] += cc * (Es @ phi[(k + s) % nz, :])
                     return out * bz / dz
                 cplx = (dense * (1 + 0.5j) + 0.25j)
-                datas = [('const', np.full((nz, nq), 1.75)), ('dense', dense), ('dense-again', dense), ('dense-third', dense), ('strided-real-view', np.real(cplx))]
+                datas = [('const', np.full((nz, nq), 1.75)), ('dense', dense), ('dense-again', dense), ('dense-third', dense), ('strided-real-view', np.real(cplx)), ('tiny', 1e-11 * dense)]      # the operator is linear in phi
                 if (p, rank) in ((1, 0), (3, 2)) and i == int(lay.shape[0]) - 1:
                     for a, b in itertools.product(range(nz), range(nq)):
                         e = np.zeros((nz, nq))
@@ -122,7 +122,7 @@ def run_case(case):
                         V('exception:' + type(e).__name__, '%s p=%d rank=%d local r index %d data=%s: %s: %s' % (tag, p, rank, i, name, type(e).__name__, e))
                         break
                     want = ref(phi)
-                    tol = 1e-11 * cond * max(1.0, np.abs(phi).max()) * sum(abs(x) for x in cf) * bz / dz
+                    tol = 1e-11 * cond * max(1e-300, np.abs(phi).max()) * sum(abs(x) for x in cf) * bz / dz          # relative to the data
                     err = np.abs(der - want).max()
                     worst = max(worst, err / tol)
                     if not err <= tol:
